@@ -372,6 +372,7 @@ def run(ctx):
         all_reqs.append([10, [], zs(tn), list(raw), mo])
         all_checks.append((dict(tn=tn, raw=raw, kind="failure-stream"), mo, ch))
     resave_stream(ctx, g, rng, IRm, all_reqs, all_checks)
+    through_constructor(ctx, g, rng, IRm)
     replies = model_batch(all_reqs)
     for (tb, mo, ch), rep in zip(all_checks, replies):
         for (idx, kind, want) in ch:
@@ -408,6 +409,71 @@ def run(ctx):
                        "non-trivial = at least one op in that generation; distinct = (table, ops, type name, written bytes)" % gens)
     for (tb, mo, ch) in all_checks[:3]:
         ctx.sample({"type_name": tb["tn"], "raw": tb["raw"].hex()[:80], "kind": tb["kind"], "model_ops": repr(mo)[:300]})
+
+
+def through_constructor(ctx, g, rng, IRm):
+    """The other way tables reach a container: the `aux_data=` argument of IR(...) / Module(...) -- a dict, a list or tuple of pairs, a
+    dict view, or a one-shot iterable (zip, generator, iterator over items()), all legal DictLike values.  Unread tables of a loaded
+    IR (known, non-canonical, unknown and partially unknown types) and freshly built ones are handed to new containers that way and
+    saved: every table is in the file, an unread one byte for byte under its type name, a fresh one as the encoding of its value."""
+    forms = ["dict", "list", "tuple", "items-view", "iter-items", "zip", "generator", "map"]
+    for rd in range(24 if ctx.quick else 400):
+        src = g.IR()
+        sm = g.Module(name="m", ir=src)
+        env = LoadedEnv(g, {src.uuid.int: 1, sm.uuid.int: 2})
+        env.bind(src)
+        tabs = {}
+        for k in range(rng.choice([1, 2, 4])):
+            t = gen_table(rng, env, g)
+            tabs["t%d" % k] = t
+            (src if k % 2 else sm).aux_data["t%d" % k] = g.AuxData(g.serialization.UnknownData(t["raw"]), t["tn"]) if t["kind"] != "known" else g.AuxData(g.serialization.UnknownData(t["raw"]), t["tn"])
+        buf = io.BytesIO()
+        try:
+            src.save_protobuf_file(buf)
+            loaded = g.IR.load_protobuf_file(io.BytesIO(buf.getvalue()))
+        except Exception as e:  # noqa: BLE001
+            ctx.add("oracle", "save-fails", "building the source IR for the constructor scenario raised %s" % exc_name(g, e), {})
+            continue
+        carried = dict(loaded.aux_data)
+        carried.update(loaded.modules[0].aux_data)           # unread lazily loaded tables
+        fresh_v = [1, 2, 3]
+        carried["fresh"] = g.AuxData(fresh_v, "sequence<uint16_t>")
+        want = {k: (tabs[k]["tn"], tabs[k]["raw"]) for k in tabs}
+        want["fresh"] = ("sequence<uint16_t>", (3).to_bytes(8, "little") + b"\x01\0\x02\0\x03\0")
+        form = forms[rd % len(forms)]
+        names, tables = list(carried), [carried[k] for k in carried]
+        arg = {"dict": lambda: dict(carried), "list": lambda: list(carried.items()), "tuple": lambda: tuple(carried.items()),
+               "items-view": lambda: carried.items(), "iter-items": lambda: iter(carried.items()), "zip": lambda: zip(names, tables),
+               "generator": lambda: ((k, carried[k]) for k in names), "map": lambda: map(lambda k: (k, carried[k]), names)}[form]
+        as_ir = rd % 3 != 0
+        ctx.count("constructor_aux_form:" + form)
+        ctx.case("ctor-aux:%d:%s:%s" % (rd, form, sorted(want)), True)
+        try:
+            if as_ir:
+                ir2 = g.IR(aux_data=arg())
+                holder = ir2
+            else:
+                ir2 = g.IR()
+                holder = g.Module(name="n", aux_data=arg(), ir=ir2)
+            buf = io.BytesIO()
+            ir2.save_protobuf_file(buf)
+            out = IRm()
+            out.ParseFromString(buf.getvalue()[8:])
+        except Exception as e:  # noqa: BLE001
+            ctx.add("oracle", "save-fails", "%s(aux_data=<%s of (name, table) pairs>) followed by save raised %s" % ("IR" if as_ir else "Module", form, exc_name(g, e)), {"form": form})
+            continue
+        got = out.aux_data if as_ir else out.modules[0].aux_data
+        missing = sorted(k for k in want if k not in got)
+        if missing or sorted(holder.aux_data) != sorted(want):
+            ctx.add("oracle", "table-lost", "%s(aux_data=<%s of (name, table) pairs>): the container holds %s and the saved file %s of the %d tables handed over"
+                    % ("IR" if as_ir else "Module", form, sorted(holder.aux_data), sorted(got), len(want)), {"form": form, "missing": missing})
+            continue
+        for k, (tn, raw) in want.items():
+            if got[k].type_name != tn or bytes(got[k].data) != raw:
+                ctx.add("oracle", "stale-or-wrong-bytes", "a table (%s, type %r) handed to a new container through the constructor (%s) is written as %s / %r, not as the %s"
+                        % ("unread, loaded" if k != "fresh" else "freshly built", tn, form, bytes(got[k].data).hex()[:80], got[k].type_name,
+                           "bytes it was loaded with" if k != "fresh" else "encoding of its value"), {"form": form, "type_name": tn})
+                break
 
 
 def resave_stream(ctx, g, rng, IRm, all_reqs, all_checks):
